@@ -40,6 +40,9 @@ def run(ck):
     ALIAS = {"a": "m", "b": "./m", "c": "lib/../m", "d": "m/."}
     cases = [{"id": i, "imports": g["imports"]} for i, g in enumerate(graphs)]
     cases += [{"id": len(graphs) + i, "imports": g["imports"], "rename": ALIAS} for i, g in enumerate(graphs)]
+    # ... and under names that differ only in letter case
+    CASEALIAS = {"a": "Mod", "b": "mod", "c": "MOD", "d": "mOd"}
+    cases += [{"id": 2 * len(graphs) + i, "imports": g["imports"], "rename": CASEALIAS} for i, g in enumerate(graphs)]
     res = vlib.run_cases(ck, "modgraph", cases, nproc=12)
     ncyc = 0
     for ci, cs in enumerate(cases):
@@ -130,6 +133,28 @@ def run(ck):
         else:
             ck.traces += 1
     ck.extra["isolation_cases"] = len(icases)
+    # ---- the value of an import expression is the module that was asked for: embedder-supplied plain objects without a module name
+    ucases = [
+        {"id": 1, "src": 'a := import("cfgA")\nb := import("cfgB")\na2 := import("cfgA")\nc := import("cfgC")\nout := [a.id, b.id, a2.id, c.id, a.n + b.n + c.n]\n', "mods": []},
+        {"id": 2, "src": 'm := import("inner")\nb := import("cfgB")\nout := [m.a.id, m.b.id, b.id, m.c.n]\n',
+         "mods": [{"name": "inner", "src": 'export {a: import("cfgA"), b: import("cfgB"), c: import("cfgC")}\n'}]},
+        {"id": 3, "src": 'f := func() { return import("cfgB") }\ng := func() { return import("cfgA") }\nout := [g().id, f().id, f().n]\n', "mods": []},
+    ]
+    want = {1: ["A", "B", "A", "A", 4], 2: ["A", "B", "B", 1], 3: ["A", "B", 2]}
+    for c in ucases:
+        c["inputs"] = []
+    ureal = semlib.real_outcomes(ck, ucases, nproc=2, extra={"weird": "two-unnamed"})
+    for c in ucases:
+        o = ureal[c["id"]]
+        ck.evaluations += 1
+        got = None
+        if o.get("k") == "ok":
+            g = dict((n, v) for n, v in o["g"])
+            got = [(bytes(e["b"]).decode() if e["k"] == "string" else e.get("n")) for e in g["out"]["e"]]
+        if got != want[c["id"]]:
+            ck.violation("import-yields-other-module", "imports of embedder-supplied unnamed modules yield %s, expected %s\n%s" % (got if got is not None else str(o)[:200], want[c["id"]], c["src"]), {"case": c, "real": o})
+        else:
+            ck.traces += 1
     # ---- file import disabled: names resolve from the module map only
     fcases = []
     names = ["m", "./m", "../m", "sub/m", "{dir}/m", "{dir}/sub/m", "m.tengo", "./m.tengo", "{dir}/m.tengo", "decoy", "../decoy", "/etc/passwd", ""]
@@ -139,6 +164,11 @@ def run(ck):
             if nm:
                 fcases.append({"id": len(fcases), "name": nm, "enable": False, "inmap": True, "setdir": setdir})
                 fcases.append({"id": len(fcases), "name": nm, "enable": True, "inmap": True, "setdir": setdir})
+    # look-alikes of the import name in the module map (the name without / with the .tengo suffix, other case, cleaned path) are other modules
+    for nm, near in (("m.tengo", ["m"]), ("lib.tengo", ["lib"]), ("m", ["m.tengo"]), ("./m", ["m"]), ("m", ["./m", "M"]), ("M", ["m"]), ("sub/m", ["m", "sub/m.tengo"]),
+                     ("m.tengo.tengo", ["m.tengo", "m"]), ("m/", ["m"]), (" m", ["m"])):
+        for nested in (False, True):
+            fcases.append({"id": len(fcases), "name": nm, "enable": False, "inmap": False, "setdir": False, "near": near, "nested": nested})
     fres = vlib.run_cases(ck, "fileimport", fcases, nproc=4, env={"VERIF_SCRATCH_DIR": ck.scratch})
     for c in fcases:
         o = fres[c["id"]]
